@@ -106,6 +106,33 @@ def run(tier, seed, replay=None):
     ck.rule = ('accepted generated programs (gen/progs.py incl. layout-focused programs) run end to end; token-level mutants of tests/*.sam '
                'that the checker still accepts are compiled (whole test program set) in debug and release builds and validated; '
                'distinct = distinct program text; non-trivial = accepted by the checker')
+    if not replay:
+        # single-fault (ill-typed) variants of generated programs: whatever the checker ACCEPTS among them is an accepted
+        # program like any other and goes through the whole pipeline (a checker that has become too permissive shows up
+        # here as an accepted program that goes wrong; on a sound checker none is accepted and this costs one front-end run each)
+        from gen import faults
+        fr = Rng(seed ^ 0xC03F)
+        bases = [faults.fault_base(fr.fork(), i) for i in range(40 if tier == 'quick' else 400)]
+        fjobs, fprogs = [], []
+        for bp in bases:
+            allm = [m for m in faults.all_faults(bp['sources']['Main'], 'generated')
+                    if faults.family(m['kind']) in ('operand-type', 'arg-type', 'match-arm', 'arity', 'typearg-arity', 'bound', 'interface')]
+            for m in fr.shuffle(allm)[:8]:
+                src = dict(bp['sources'])
+                src['Main'] = m['text']
+                fprogs.append({'sources': src, 'entry': 'Main', 'features': ['accepted-fault:' + m['kind']]})
+                fjobs.append({'id': len(fjobs), 'sources': src, 'entries': ['Main'], 'compile': False})
+        accepted = 0
+        chunks = [fjobs[i::16] for i in range(16)]
+        import concurrent.futures
+        with concurrent.futures.ThreadPoolExecutor(max_workers=16) as ex:
+            for part in ex.map(lambda c: run_jobs(c) if c else [], chunks):
+                for r in part:
+                    if not r['errors'] and not r.get('front_panic'):
+                        progs.append(fprogs[r['id']])
+                        accepted += 1
+        ck.count('fault-variants:checked', len(fjobs))
+        ck.count('fault-variants:accepted', accepted)
     recs = run_pipeline(progs, 'c03')
     for p, r in zip(progs, recs):
         ck.case(p['sources'], not r['errors'])
